@@ -39,6 +39,7 @@ package system
 //@   assigns nothing
 //
 //@ func (c Collection) ToSingletonBoolean() (res, err)
+//@   requires validColl(c)
 //@   ensures (err != nil) == (tvC(c) == TV_ERR)
 //@   ensures err == nil ==> len(res) <= 1 && tvB(res) == tvC(c)
 //@   assigns nothing
@@ -51,7 +52,7 @@ package system
 //
 //@ func (c Collection) ToBool() (res, err)
 //@   requires validColl(c)
-//@   instantiate From(c[0])
+//@   instantiate len(c) > 0 ==> From(c[0])
 //@   ensures (err != nil) == (tvC(c) == TV_ERR)
 //@   ensures err == nil ==> res == (tvC(c) == TV_T)
 //@   assigns nothing
@@ -155,6 +156,7 @@ package system
 //@   assigns nothing
 //
 //@ func (c Collection) containsSystem(value) (res)
+//@   requires validColl(c) && value != nil && validSys(value) && validSysColl(c)
 //@   ensures res == (exists k int :: 0 <= k && k < len(c) && fromOk(c[k]) && sysEq(fromS(c[k]), value))
 //@   loop 1 (i):
 //@     invariant 0 <= i && i <= len(c)
@@ -169,6 +171,7 @@ package system
 //@   assigns nothing
 //
 //@ func (c Collection) Contains(value) (res)
+//@   requires validColl(c) && validSysColl(c) && validItem(value) && (fromOk(value) ==> validSys(fromS(value)))
 //@   ensures res == containsS(c, value)
 //@   assigns nothing
 //
@@ -308,6 +311,7 @@ package system
 //
 // system.TryEqual against the reference equality eq3: 0 equal, 1 not equal, 2 empty
 //@ func TryEqual(lhs, rhs) (eq, has)
+//@   cumulative
 //@   requires lhs != nil && rhs != nil && validSys(lhs) && validSys(rhs)
 //@   ensures has == (eq3(lhs, rhs) != 2)
 //@   ensures has && isBoolV(lhs) ==> eq == (eq3(lhs, rhs) == 0)
